@@ -23,7 +23,7 @@ class Prop:
 
 class ModelRun:
     def __init__(self, model, gen, nontrivial=None, regions=None, impl_env=None, spec_needs_impl=False,
-                 rule="", search=None):
+                 rule="", search=None, shrinkable=True):
         self.model = model
         self.gen = gen                    # gen(rng, tier) -> list[Case]
         self.nontrivial = nontrivial or (lambda c: len(c.ops) >= 2)
@@ -31,6 +31,7 @@ class ModelRun:
         self.impl_env = impl_env
         self.spec_needs_impl = spec_needs_impl
         self.rule = rule
+        self.shrinkable = shrinkable
         self.search = search              # search(rng, budget) -> list[Case]: directed failing-input search
 
 
@@ -141,14 +142,14 @@ def run_property(prop, tier, seed, replay=None):
                 if hit:
                     kf_hits[hit["id"]] = kf_hits.get(hit["id"], 0) + 1
                     continue
-                small = core.shrink(mr.model, c, lambda j: not j[1], mr.impl_env, mr.spec_needs_impl)
+                small = core.shrink(mr.model, c, lambda j: not j[1], mr.impl_env, mr.spec_needs_impl) if mr.shrinkable else c
                 r2, _ = core.run_cases(mr.model, [small], mr.impl_env, mr.spec_needs_impl)
                 p = core.write_replay(prop.id, seed, "oracle", small, r2[0],
                                       "the implementation's answers violate the property's spec oracle")
                 violations.append((p, ""))
             else:
                 disagreements += 1
-                small = core.shrink(mr.model, c, lambda j: not j[0], mr.impl_env, mr.spec_needs_impl)
+                small = core.shrink(mr.model, c, lambda j: not j[0], mr.impl_env, mr.spec_needs_impl) if mr.shrinkable else c
                 r2, _ = core.run_cases(mr.model, [small], mr.impl_env, mr.spec_needs_impl)
                 p = core.write_replay(prop.id, seed, "corr", small, r2[0],
                                       f"correspondence:{mr.model} – model and implementation disagree; "
